@@ -104,7 +104,13 @@ size_t varintEliasGammaEncode(varintBitWriter *w, uint64_t value) {
 uint64_t varintEliasGammaDecode(varintBitReader *r) {
     /* Count leading zeros */
     size_t n = 0;
-    while (varintBitReaderRead(r, 1) == 0) {
+    for (;;) {
+        if (!varintBitReaderHasMore(r, 1)) {
+            return 0; /* Input ends inside the zero run */
+        }
+        if (varintBitReaderRead(r, 1) != 0) {
+            break;
+        }
         n++;
         if (n > 63) {
             return 0; /* Overflow protection */
@@ -114,6 +120,10 @@ uint64_t varintEliasGammaDecode(varintBitReader *r) {
     /* We've read the leading 1, now read remaining n bits */
     if (n == 0) {
         return 1;
+    }
+
+    if (!varintBitReaderHasMore(r, n)) {
+        return 0; /* Input ends inside the value */
     }
 
     uint64_t remaining = varintBitReaderRead(r, n);
@@ -189,14 +199,18 @@ size_t varintEliasDeltaEncode(varintBitWriter *w, uint64_t value) {
 uint64_t varintEliasDeltaDecode(varintBitReader *r) {
     /* Read length in Gamma code */
     uint64_t lenN = varintEliasGammaDecode(r);
-    if (lenN == 0) {
-        return 0; /* Decode error */
+    if (lenN == 0 || lenN > 64) {
+        return 0; /* Decode error, or a bit length no uint64_t has */
     }
 
     size_t n = (size_t)lenN - 1;
 
     if (n == 0) {
         return 1;
+    }
+
+    if (!varintBitReaderHasMore(r, n)) {
+        return 0; /* Input ends inside the value */
     }
 
     /* Read remaining n bits */
